@@ -490,6 +490,12 @@ def check_idle_tc(R, F, P, cfg, rule):
                 return False
             return any(c.via == "dtor" for c in _ctx_chain(x.ctx))
         heads = [h for h in loop_heads_applying(S2, resets2, exclude=("ui",)) if _walks_whole_buffer(S2, h)]
+        # the same walk written as `possible_cycles.iter().for_each(|p| reset(p))`: the pass is the for_each call
+        for x_ in S2.nodes:
+            if resets2(x_):
+                ic = iteration_context(S2, x_)
+                if ic is not None and ic["kind"] in ("for_each", "fold") and ic["every"] and ic["whole"] and ic["item_ok"] and "possible_cycles" in fmt(ic["list"]):
+                    heads.append(ic["pass"])
         ok, _ = unwind_must_pass(S2, U, lambda x: x in heads)
         chain = " > ".join(P.fns[c].npath.split("::")[-1] for c in U.ctx.chain)
         R.inst(rule, "idle-tc", ok,
